@@ -11,7 +11,7 @@ TECHNIQUE = ("bounded-exhaustive enumeration of device-activity multisets on an 
 RULE = ("every multiset (multiplicity<=2, up to time translation: min start = 0) of <=K activities "
         "(span within grid G_T incl. zero length) x type {computation, communication} (+ distractor slice with "
         "memcpy/sync activities that must be ignored; + file slice loading each small world from its own "
-        "1- and 2-rank files) x N1 tie orders (stable, all-reversed, every single tie group permuted); "
+        "1- and 2-rank files; + session slice: the same TraceAnalysis object ran a critical-path analysis of one launch window | decode_symbol_ids | the other summary getters before) x N1 tie orders (stable, all-reversed, every single tie group permuted); "
         "non-trivial = communication time > 0 and both kinds present")
 ASSUMPTIONS = [
     "pandas/numpy primitives are trusted; an unstable sort may return any order of rows with equal keys",
@@ -24,6 +24,9 @@ def bounds(tier: str) -> Dict[str, Any]:
     if tier == "quick":
         return dict(T=4, K=4, distract_K=2, file_K=2, tie_max_dev=1, chunk=64)
     return dict(T=5, K=4, distract_K=3, file_K=3, tie_max_dev=2, chunk=64)
+
+
+PRIOR_KINDS = ("cp", "decode", "getters")
 
 
 def worlds(tier: str, stats: Dict[str, Any]) -> Iterator[Any]:
@@ -55,6 +58,11 @@ def worlds(tier: str, stats: Dict[str, Any]) -> Iterator[Any]:
         if len(ms) == 2:
             stats["transitions"] += 1
             yield dict(mode="file", ranks=[[list(i) for i in ms]], no_corr=True)
+            # session slice: the same object was used for other analyses before (launch calls issued one after the other)
+            if all(i[1] > i[0] for i in ms):
+                for pk in PRIOR_KINDS:
+                    stats["transitions"] += 1
+                    yield dict(mode="file", ranks=[[list(i) for i in ms]], prior=pk)
     for seq in ivworlds.history_sequences():
         stats["transitions"] += len(seq)
         yield dict(mode="history", seq=seq)
@@ -111,8 +119,11 @@ def check(world) -> Dict[str, Any]:
         exp = {r: expected(its) for r, its in ranks.items()}
         if any(v is None for v in exp.values()):
             return dict(viol=[], nontrivial=False, outcome="undef", execs=0)
-        tas = [htaenv.load_world({r: ivworlds.events_for(its, no_corr=bool(world.get("no_corr"))) for r, its in ranks.items()})[0]]
+        tas = [htaenv.load_world({r: ivworlds.events_for(its, no_corr=bool(world.get("no_corr")), spread=bool(world.get("prior")))
+                                  for r, its in ranks.items()})[0]]
         b_dev = 1
+        if world.get("prior"):
+            htaenv.prior_session(tas[0], world["prior"])
 
     def run():
         df = ta.get_comm_comp_overlap(visualize=False)
